@@ -28,6 +28,7 @@ LEVEL_NOTE = (
 )
 TECHNIQUE = "property-based testing (Hypothesis) with fault-injected inputs; reject-or-be-finite oracle"
 BUDGET = {"quick": 1500, "thorough": 40000}
+FUZZ = {"quick": 0, "thorough": 48000}  # executions of the coverage-guided stage (vlib/fuzz.py)
 SHRINK_SECONDS = {"quick": 30, "thorough": 150}
 RULE = (
     "case = (problem, injection kind, location/size parameters). Non-trivial = an injection other than 'none' whose "
